@@ -13,7 +13,7 @@ import (
 )
 
 func init() {
-	register("C02", "Structural clauses behind incremental minimality, decided for every pair of stats: the equality test that suppresses a change compares every identity field of types.Stat (the field set is taken from go/types, so a new field is an obligation) field-by-field between its two operands and each 'different' outcome forces the result false; with differencing disabled the test is false before any comparison; on the modify arm the change callback is unreachable when the test said same and reachable otherwise, with operands (destination entry, filtered clone of source entry); both walkers build stats with one constructor; content is requested only on the regular, non-link arm. Device numbers are decoded from the raw device word bit for bit as on the reference tree (bit-level reading of the decoding helpers). The file ids both ends key their tables by are the zero-based positions in the STAT sequence (counter from 0, one increment per announced entry, registration with the pre-increment value; shared with C06/C07): two ends that agree with each other on any other numbering hand a conforming peer a neighbouring file's bytes. Does not decide histories, inode preservation or the hard-link timing exception.", runC02)
+	register("C02", "Structural clauses behind incremental minimality, decided for every pair of stats: the equality test that suppresses a change compares every identity field of types.Stat (the field set is taken from go/types, so a new field is an obligation) field-by-field between its two operands and each 'different' outcome forces the result false; with differencing disabled the test is false before any comparison; on the modify arm the change callback is unreachable when the test said same and reachable otherwise, with operands (destination entry, filtered clone of source entry); both walkers build stats with one constructor; content is requested only on the regular, non-link arm. Device numbers are decoded from the raw device word bit for bit as on the reference tree (bit-level reading of the decoding helpers). The file ids both ends key their tables by are the zero-based positions in the STAT sequence (counter from 0, one increment per announced entry, registration with the pre-increment value; shared with C06/C07): two ends that agree with each other on any other numbering hand a conforming peer a neighbouring file's bytes. The verdict 'different' needs a difference: with every same-field comparison equal no (false, nil) is returned. Does not decide histories, inode preservation or the hard-link timing exception.", runC02)
 }
 
 func runC02(c *Ctx) {
@@ -41,6 +41,92 @@ func runC02(c *Ctx) {
 	// the content requested for a changed entry is that entry's: ids are
 	// zero-based STAT positions on both ends (shared with C06/C07)
 	idNumbering(c, "R02.10", "R02.11", "R02.12")
+	r02_13(c, "R02.13")
+}
+
+// R02.13: "different" needs a difference.
+//
+// R02.1 asks that every differing identity field forces the verdict false;
+// this is the converse. With every same-field comparison of the two stats
+// pinned to "equal", differencing not disabled and the helpers that compare
+// (compareStat, compareFileContent) answering "same", no `return false, nil`
+// is reachable in sameFile or compareStat: a verdict of "different" that rests
+// on the value of one side alone (a zero ModTime read as "no timestamp") makes
+// an unchanged entry be re-created, re-requested and reported on every sync.
+func r02_13(c *Ctx, rule string) {
+	c.R.Rule(rule, "sameFile / compareStat: with all same-field comparisons of the two stats equal, differencing enabled and the comparing helpers answering 'same', no return of (false, nil) is reachable")
+	pk := c.P.Pkg("fsutil")
+	none := "?"
+	if pk != nil {
+		if k, ok := pk.Types.Scope().Lookup("DiffNone").(*types.Const); ok {
+			none = k.Val().ExactString()
+		}
+	}
+	for _, name := range []string{"fsutil.sameFile", "fsutil.compareStat"} {
+		fn := c.Fn(rule, name)
+		if fn == nil {
+			continue
+		}
+		x := c.explorer(fn)
+		pins := map[string]bool{}
+		nf := 0
+		eng.Instrs(fn, func(in ssa.Instruction) {
+			switch v := in.(type) {
+			case *ssa.BinOp:
+				if v.Op != token.EQL && v.Op != token.NEQ {
+					return
+				}
+				ox, _, _, okx := eng.LoadedField(v.X)
+				oy, _, _, oky := eng.LoadedField(v.Y)
+				if okx && oky && ox == oy && strings.HasPrefix(ox, "types.Stat.") {
+					pins[x.RegKey(v)] = v.Op == token.EQL
+					nf++
+					return
+				}
+				// differ == DiffNone
+				for _, o := range [][2]ssa.Value{{v.X, v.Y}, {v.Y, v.X}} {
+					if _, isP := eng.Strip(o[0]).(*ssa.Parameter); isP {
+						if k, isK := o[1].(*ssa.Const); isK && k.Value != nil && k.Value.ExactString() == none && strings.HasSuffix(types.TypeString(o[0].Type(), nil), "DiffType") {
+							pins[x.RegKey(v)] = v.Op == token.NEQ
+						}
+					}
+				}
+			case *ssa.Extract:
+				if call, ok := v.Tuple.(*ssa.Call); ok && v.Index == 0 {
+					switch c.P.CalleeName(call) {
+					case "fsutil.compareStat", "fsutil.compareFileContent":
+						pins[x.RegKey(v)] = true
+					}
+				}
+			}
+		})
+		con := c.name(fn) + "/different-needs-a-difference"
+		if nf == 0 {
+			c.R.OK(rule, con, c.P.Pos(fn.Pos()), "no same-field comparison of two stats of a shape this rule interprets: not decided")
+			continue
+		}
+		ex := c.explorer(fn)
+		ex.Assume = pins
+		ex.Target = func(in ssa.Instruction, st *eng.State) bool {
+			r, ok := in.(*ssa.Return)
+			if !ok || r.Parent() != fn || len(r.Results) != 2 {
+				return false
+			}
+			b, isB := eng.ConstBool(r.Results[0])
+			k, isK := r.Results[1].(*ssa.Const)
+			return isB && !b && isK && k.IsNil()
+		}
+		ex.StopAtTarget = true
+		hits := ex.Run()
+		switch {
+		case ex.Exhausted:
+			c.R.Undecided(rule, con, c.P.Pos(fn.Pos()), "state limit")
+		case len(hits) > 0:
+			c.R.Fail(rule, con, c.pos(hits[0].Instr), "the verdict 'different' is reachable although every compared field is equal on both sides (it rests on the value of one side alone?): an unchanged entry is re-created, re-requested and reported on every sync; path "+eng.BlockTrace(fn, hits[0].Trace))
+		default:
+			c.R.OK(rule, con, c.P.Pos(fn.Pos()), fmt.Sprintf("with %d same-field comparisons equal no (false, nil) return is reachable", nf))
+		}
+	}
 }
 
 // identity fields: all exported fields of types.Stat minus these, with reason.
